@@ -135,7 +135,10 @@ JudgeCall(c, dev0, b, focus) ==
                         \/ (ops[k].k = "r" /\ ops[k].kind \in {"err", "errnamed", "wrong", "trunc", "raise"})
                         \/ (ops[k].k = "r" /\ ops[k].kind = "empty" /\ (k = Len(ops) \/ ops[k + 1].k = "w")) IN
        IF cl.m \notin {"reboot", "bootload"} /\ \E k \in 1..Len(ops) : FailAt(k) /\ \E j \in (k + 1)..Len(ops) : ops[j].k = "w"
-       THEN R("latch.transmits_after_error_recorded", b) ELSE R("ok", b)
+       THEN R("latch.transmits_after_error_recorded", b)
+       \* reboot / bootload that report success have given the port up ("only connecting remains possible"), whatever close() said while doing so
+       ELSE IF cl.m \in {"reboot", "bootload"} /\ RetOf(c) = <<"bool", TRUE>> /\ c.port_open THEN R("latch.reboot_leaves_object_disconnected", b)
+       ELSE R("ok", b)
   ELSE IF F("C15") THEN R("ok", b)
   ELSE IF F("C16") THEN      \* the statement is about the board after calls that succeeded, whatever the object did to get there
        LET b2 == OpsBoard(ops, 1, b)
